@@ -9,6 +9,10 @@
  */
 #include "hpoly.h"
 #include <variable_list.h>
+#include <upolynomial.h>
+#include <algebraic_number.h>
+#include <value.h>
+#include <assignment.h>
 #include <polynomial_vector.h>
 #include <feasibility_set_int.h>
 
@@ -250,6 +254,49 @@ static void vlist_case(void) {
   lp_variable_order_detach(ord);
 }
 
+/* assignment: values are set from fresh values and from the assignment's own slots (copy one variable's value to another,
+ * including to a variable beyond the current size, and onto itself); every slot must hold the value its history says
+ *   refs asg <op,op,...> => ok | <first disagreement> */
+static void asg_case(void) {
+  lp_variable_db_t* db = lp_variable_db_new();
+  lp_assignment_t* m = lp_assignment_new(db);
+  enum { NV = 300 };
+  lp_value_t shadow[NV]; for (int i = 0; i < NV; ++i) lp_value_construct_none(&shadow[i]);
+  char bad[128]; bad[0] = 0;
+  int nops = 3 + (int)rnd(16);
+  sb_begin("refs", "asg"); sb_sp();
+  for (int k = 0; k < nops && !bad[0]; ++k) {
+    unsigned w = rnd(100);
+    /* mostly small indices, sometimes far beyond the current size (the array grows) */
+    lp_variable_t x = chance(75) ? rnd(6) : rnd(NV), y = chance(75) ? rnd(6) : rnd(NV);
+    if (k) sb_str(",");
+    if (w < 40) { /* fresh value: integer, rational or sqrt2-like algebraic */
+      lp_value_t v; unsigned t = rnd(3);
+      if (t == 0) { lp_integer_t z; lp_integer_construct_from_int(lp_Z, &z, rnd_in(-9, 9)); lp_value_construct(&v, LP_VALUE_INTEGER, &z); lp_integer_destruct(&z); }
+      else if (t == 1) { lp_rational_t q; lp_rational_construct_from_int(&q, rnd_in(-9, 9), 1 + rnd(7)); lp_value_construct(&v, LP_VALUE_RATIONAL, &q); lp_rational_destruct(&q); }
+      else { long c[3] = { -(long)(2 + rnd(5)), 0, 1 }; lp_upolynomial_t* f = lp_upolynomial_construct_from_long(lp_Z, 2, c);
+        lp_algebraic_number_t r[2]; size_t n = 0; lp_upolynomial_roots_isolate(f, r, &n);
+        lp_value_construct(&v, LP_VALUE_ALGEBRAIC, &r[n - 1]); for (size_t i = 0; i < n; ++i) lp_algebraic_number_destruct(&r[i]); lp_upolynomial_delete(f); }
+      lp_assignment_set_value(m, x, &v); lp_value_assign(&shadow[x], &v); lp_value_destruct(&v);
+      sb_str("set:"); sb_ulong(x);
+    } else if (w < 80) { /* copy slot x to slot y through the assignment's own storage */
+      lp_value_t keep; lp_value_construct_copy(&keep, &shadow[x]);
+      if (lp_assignment_get_value(m, x)->type == LP_VALUE_NONE) { lp_value_destruct(&keep); sb_str("skip"); continue; }
+      lp_assignment_set_value(m, y, lp_assignment_get_value(m, x));
+      lp_value_assign(&shadow[y], &keep); lp_value_destruct(&keep);
+      sb_str("copy:"); sb_ulong(x); sb_str(">"); sb_ulong(y);
+    } else { lp_assignment_set_value(m, x, 0); lp_value_destruct(&shadow[x]); lp_value_construct_none(&shadow[x]); sb_str("unset:"); sb_ulong(x); }
+    for (int i = 0; i < NV && !bad[0]; ++i) {
+      const lp_value_t* g = lp_assignment_get_value(m, (lp_variable_t)i);
+      int same = (g->type == LP_VALUE_NONE) == (shadow[i].type == LP_VALUE_NONE) && (g->type == LP_VALUE_NONE || lp_value_cmp(g, &shadow[i]) == 0);
+      if (!same) snprintf(bad, sizeof bad, "slot-%d-differs-after-op-%d", i, k);
+    }
+  }
+  sb_arrow(); sb_sp(); sb_str(bad[0] ? bad : "ok"); sb_emit();
+  for (int i = 0; i < NV; ++i) lp_value_destruct(&shadow[i]);
+  lp_assignment_delete(m); lp_variable_db_detach(db);
+}
+
 int main(int argc, char** argv) {
   uint64_t seed = argc > 1 ? strtoull(argv[1], 0, 10) : 1;
   long n = argc > 2 ? atol(argv[2]) : 1000;
@@ -259,7 +306,7 @@ int main(int argc, char** argv) {
   for (long i = 0; i < n; ++i) {
     if ((only >= 0 && i != only) || i < start) continue;
     lpv_begin_case(seed, i);
-    if (i % 8 == 7) vdb_case(); else if (i % 8 == 3) vlist_case(); else mem_case();
+    if (i % 8 == 7) vdb_case(); else if (i % 8 == 3) vlist_case(); else if (i % 8 == 5) asg_case(); else mem_case();
   }
   free(sb_buf);
   return 0;
